@@ -12,28 +12,32 @@ def ring_cases(tier):
 
 
 def step_cases(tier):
+    """measured (loaded machine, one core): calls without a received PDU 70-120 s of solver time each; every case with a PDU in the receive
+    ring (end_event -> handle_received_data) gave no verdict within 16-23 min -> thorough tier only"""
     cs = []
     def add(step, pre, opc=-1, ln=1):
         cs.append({'STEP': step, 'PRE': pre, 'OPC': opc, 'LEN': ln})
     pres = (2, 3, 4, 5)
     for pre in pres:
-        add(0, pre); add(1, pre)
-        add(0, pre, 0x02, 2)                       # LL_TERMINATE_IND
-    add(0, 2, 0x0C, 6); add(0, 3, 0x0D, 2)         # events of other kinds between the lifecycle events
+        if pre != 4 or tier != 'quick':      # end_event() while disconnecting (LL_TERMINATE_IND is sent): no verdict within 18 min
+            add(0, pre)
+        add(1, pre)
     add(2, 1); add(3, 3)
     if tier != 'quick':
         for pre in pres:
-            for opc, ln in ((0x0C, 6), (0x0D, 2), (0x07, 2), (0x08, 9), (0x11, 3), (0x12, 1), (0x02, 3), (0x18, 5), (0x00, 12)):
+            for opc, ln in ((0x02, 2), (0x0C, 6), (0x0D, 2), (0x07, 2), (0x08, 9), (0x11, 3), (0x12, 1), (0x02, 3), (0x18, 5), (0x00, 12)):
                 add(0, pre, opc, ln)
             add(3, pre)
     return cs
 
 
 def burst_cases(tier):
-    # measured: NK=1 17 s; NK=4 no verdict within 23 min of solver time (receive ring with several PDUs) -> NK <= 1 (quick) / 2 (thorough);
-    # the loss of events with NK >= 4 was confirmed by replaying a hand-written input on the real build (replays/C29-c29_burst-handmade.replay)
-    ks = (0, 1) if tier == 'quick' else (0, 1, 2)
-    return [{'NK': k, 'PRE': p} for k in ks for p in (2, 3)]
+    # every case (even LL_TERMINATE_IND alone) gave no verdict within 16 min of solver time (receive ring + end_event): thorough tier only, not
+    # shown to finish; the loss of events with 4+1 PDUs was confirmed by replaying a hand-written input on the real build
+    # (replays/C29-c29_burst-handmade.replay: fails before the fix, passes after it)
+    if tier == 'quick':
+        return []
+    return [{'NK': k, 'PRE': p} for k in (0, 1, 2) for p in (2, 3)]
 
 
 PROPERTY = Property(
@@ -44,10 +48,10 @@ PROPERTY = Property(
      Harness('c29_step', LLD0, 'harness/c29_step.c', step_cases, unwind=40, timeout=1800,
              description='one adv_received() / end_event() / timeout() / disconnect() from every link layer state: the lifecycle callbacks of the step follow '
                          'requested -> established | attempt_timeout -> changed* -> closed and agree with the state afterwards',
-             bounds='0 or 1 received control PDU per connection event (concrete opcode and length), everything else symbolic'),
+             bounds='quick: no received PDU in the connection event; thorough: 0 or 1 received control PDU (concrete opcode and length); everything else symbolic'),
      Harness('c29_burst', LLD0, 'harness/c29_burst.c', burst_cases, unwind=10, timeout=1800,
              description='K LL_REJECT_IND / LL_UNKNOWN_RSP followed by LL_TERMINATE_IND in one connection event: every event is reported, closed last',
-             bounds='K <= 1 (quick) / 2 (thorough) PDUs before the LL_TERMINATE_IND; error codes, reason, kinds symbolic')],
+             bounds='thorough tier only: K <= 2 PDUs before the LL_TERMINATE_IND; error codes, reason, kinds symbolic')],
     functions=['connection_callbacks::connection_requested/_established/_attempt_timeout/_changed/_closed/procedure_rejected/procedure_unknown/'
                'version_indication_received/remote_features_received/phy_update', 'connection_callbacks::handle_connection_events',
                'details::ring<4,event_data>::try_push/try_pop', 'link_layer::adv_received', 'link_layer::end_event', 'link_layer::timeout', 'link_layer::disconnect',
@@ -61,8 +65,9 @@ PROPERTY = Property(
                 '(ii) Induction over link layer calls: the abstract connection state (none / requested / established) is a function of state_; every call from every state reports '
                 'exactly the lifecycle callbacks the automaton requested (attempt_timeout | established changed* closed) allows for that state and ends in the matching state, '
                 'with an empty ring. Hence every run reports each connection completely, once and in order, and nothing for a connection that was never requested.',
-    outside=['bursts of more than 2 control PDUs in one connection event are not decided by the solver (no verdict within 23 min for 4+1 PDUs); that the fixed link layer polls the ring after '
-             'every control PDU is visible in the source and was replayed for 4+1 PDUs on the real build',
+    outside=['QUICK TIER: connection events that carry received control PDUs (LL_TERMINATE_IND -> closed with its reason, bursts) are not decided: every such case needs more than 16-23 min of '
+             'solver time (receive ring + end_event); they are listed in the thorough tier but were not shown to finish. That the fixed link layer polls the event ring after every control PDU is '
+             'visible in the source and was replayed for 4+1 PDUs on the real build (replays/C29-c29_burst-handmade.replay)',
              'events raised by L2CAP/ATT traffic (none: only the link layer raises connection events)',
              'concurrent use of the ring from interrupt context (C30)'],
 )
